@@ -415,6 +415,24 @@ let c11 op a =
        | _ -> "(err)")
   | _ -> "(unknown-op " ^ op ^ ")"
 
+
+(* ---------- C13 / C14 ---------- *)
+let c14 op a =
+  match op, a with
+  | "c14.check", [e; act] ->
+      let actor = if act = "-" then None else Some (ty_of (parse_sx act)) in
+      b01 (check_prog (env_of e) actor)
+  | "c13.record_ids", [ls] ->
+      let lab s = match head s, args s with
+        | "id", [x] -> FId (n_of_string (atom x))
+        | "named", [x] -> FNamed (unhex (atom x))
+        | "unnamed", [] -> FUnnamed
+        | _ -> failwith "flabel" in
+      (match record_ids (List.map lab (items (parse_sx ls))) with
+       | Some ids -> "(ok" ^ String.concat "" (List.map (fun i -> " " ^ string_of_n i) ids) ^ ")"
+       | None -> "(err)")
+  | _ -> "(unknown-op " ^ op ^ ")"
+
 let dispatch (op : string) (a : string list) : string =
   let base = if String.length op > 2 && String.sub op 0 2 = "m." then String.sub op 2 (String.length op - 2) else op in
   let prop = try String.sub base 0 (String.index base '.') with Not_found -> base in
@@ -424,6 +442,7 @@ let dispatch (op : string) (a : string list) : string =
   | "c05" -> c05 op a
   | "c09" -> c09 op a
   | "c11" -> c11 op a
+  | "c13" | "c14" -> c14 op a
   | "c15" -> c15 op a
   | "c16" -> c16 op a
   | _ -> "(unknown-op " ^ op ^ ")"
